@@ -1,7 +1,8 @@
 (** C01 — source AST of the YANG fragment whose compilation is modelled
     (module + submodules + imported modules; groupings at module level, nested in groupings and
-    sibling-scoped in containers/lists; leaf | leaf-list | container | list | choice/case |
-    uses {when; refine*; augment*}; module-level augments), and the expanded/compiled tree [enode].
+    sibling-scoped in containers/lists/input/output/notification; leaf | leaf-list | container |
+    list | choice/case | rpc/action {input; output} | notification | uses {when; refine*; augment*};
+    module-level augments), and the expanded/compiled tree [enode].
 
     One inductive [stmt] carries a kind tag instead of one constructor per keyword; the
     well-formedness predicate [wf_stmt] (Expand.v) says which shapes are YANG. *)
@@ -27,12 +28,16 @@ Fixpoint text_leb (a b : text) : bool :=
       if N.ltb i j then true else if N.ltb j i then false else text_leb a' b'
   end.
 
-Inductive kind := KLeaf | KLeafList | KCont | KList | KChoice | KCase.
+(** data definitions, and the operations: rpc/action ([KAction], members [KInput]/[KOutput]) and
+    notification ([KNotif]).  An rpc is an action written at module level (one Go type, meta.Rpc). *)
+Inductive kind := KLeaf | KLeafList | KCont | KList | KChoice | KCase
+                | KAction | KInput | KOutput | KNotif.
 
 Definition kind_eqb (a b : kind) : bool :=
   match a, b with
   | KLeaf, KLeaf | KLeafList, KLeafList | KCont, KCont | KList, KList
-  | KChoice, KChoice | KCase, KCase => true
+  | KChoice, KChoice | KCase, KCase
+  | KAction, KAction | KInput, KInput | KOutput, KOutput | KNotif, KNotif => true
   | _, _ => false
   end.
 
